@@ -11,12 +11,14 @@ RULE = ("Engine K: a continuous conveyor (length, item length, speed from a grid
         "requests; puts at the grant instant or, in a quarter of the cases, after a loading time) and a scripted consumer (always waiting = free flow, late = one long stall, "
         "alternating, irregular; gets at the grant instant). Validity predicates on put instants p_i, offer instants r_i "
         "(first instant in ready_items) and get instants g_i: items are got in entry order; occupancy <= capacity after "
-        "every kernel event; p_(i+1) - p_i >= item_length/speed (slot delay); r_i - p_i >= length/speed (capacity*delay); "
+        "every kernel event; p_(i+1) - p_i >= item_length/speed (slot delay), and on a non-accumulating continuous belt the same after "
+        "subtracting the time the belt stood still in between (an item waited at the exit); r_i - p_i >= length/speed (capacity*delay); "
         "if no item ever waited (g_i == r_i for all i) then r_i - p_i == length/speed exactly (1e-9 relative); an item whose "
         "predecessors were all taken is offered before the run ends. Non-trivial: "
         ">= 3 items on the belt at once and (irregular arrivals or a stall).")
 ASSUMPTIONS = ["offer instant = first kernel event after which the item is in ready_items (or its get instant if it is taken in that same event)",
-               "tolerance 1e-9 relative on time differences"]
+               "tolerance 1e-9 relative on time differences",
+               "belt-travel spacing on non-accumulating continuous belts: standstill = union of [offer, get) of items that waited at the exit"]
 
 
 def examples(tier):
@@ -142,6 +144,37 @@ def run_case(case):
             res.violate((kind, acc, "spacing", fl), "items #%d and #%d entered at %s and %s: %.6g apart, one item length of travel is %.6g" % (
                 i, i + 1, p[i], p[i + 1], gap, r.slot_time))
             break
+    # spacing in belt travel: a non-accumulating belt stands still while an item waits at its exit, so between two
+    # entries the belt must have *moved* one item length: (gap - standstill time inside the gap) >= item length / speed
+    # (continuous belt only: the slotted belt does not stand still during a stall at all - known finding K2, owned by C13 -
+    # so its standstill time cannot be read off the offers)
+    if kind == "continuous" and not acc and not res.violations and r.crashed is None and not r.livelock:
+        gm = {id(it): t for (t, it) in got}
+        stalls = []
+        for it in items:
+            ro = r.t_offer.get(id(it))
+            if ro is None:
+                continue
+            g = gm.get(id(it), float("inf"))
+            if g > ro and not close(g, ro):
+                stalls.append((ro, g))
+        stalls.sort()
+        merged = []
+        for (s_, e) in stalls:
+            if merged and s_ <= merged[-1][1]:
+                merged[-1][1] = max(merged[-1][1], e)
+            else:
+                merged.append([s_, e])
+        stalls = merged
+        for i in range(len(p) - 1):
+            a, b = p[i], p[i + 1]
+            still = sum(max(0.0, min(b, e) - max(a, s_)) for (s_, e) in stalls)
+            moved = (b - a) - still
+            if moved < r.slot_time and not close(moved, r.slot_time):
+                res.violate((kind, acc, "spacing_travel", fl),
+                            "items #%d and #%d entered at %s and %s; the belt stood still for %.6g of that (an item waited at the exit), "
+                            "so it moved for %.6g < one item length of travel %.6g" % (i, i + 1, a, b, still, moved, r.slot_time))
+                break
     # travel
     stalled = False
     waited = False
